@@ -935,6 +935,77 @@ fn source_scan() -> Vec<String> {
     out
 }
 
+/// (3b) contention pass (sampling, labelled; never deciding): state the subject keeps in its own statics is outside
+/// wp's reach, so it is hammered instead - 4 threads, each asking its own classes of a 1100-class handle 4000 times
+/// per query kind, and 8 threads remapping a 600-cause typed trace at the same time; every answer must be the
+/// answer a fresh handle gives
+fn contention_pass(acc: &mut Acc) {
+        let big = Big { mapper: cur::ProguardMapper::new_with_param_mapping(cur::ProguardMapping::new(big_mapping()), true), cache: cur::ProguardCache::parse(big_cache_bytes()).expect("parse") };
+        struct Force<T>(T);
+        unsafe impl<T> Sync for Force<T> {}
+        let shared = Force(&big);
+        let mut hammered = 0u64;
+        for kind in 0..WARM_KINDS {
+            for subject in 0..2usize {
+                let expected: Vec<Vec<String>> = (0..4usize).map(|ti| (0..3usize).map(|k| big_query(&big, kind, subject, 100 * ti + k)).collect()).collect();
+                let bad: Mutex<Option<String>> = Mutex::new(None);
+                std::thread::scope(|s| {
+                    for ti in 0..4usize {
+                        let (shared, expected, bad) = (&shared, &expected, &bad);
+                        s.spawn(move || {
+                            for round in 0..4000usize {
+                                let k = round % 3;
+                                let got = big_query(shared.0, kind, subject, 100 * ti + k);
+                                if got != expected[ti][k] {
+                                    *bad.lock().unwrap() = Some(format!("4 threads hammering '{}': thread {} got {} for its class {} (alone: {})", OPS[WARM_OP0 + kind * 4 + subject * 2], ti, got, 100 * ti + k, expected[ti][k]));
+                                    break;
+                                }
+                            }
+                        });
+                    }
+                });
+                hammered += 16000;
+                let found: Option<String> = bad.lock().unwrap().clone();
+                if let Some(d) = found {
+                    acc.violation("free-running:contention:differs-from-solo", 2, || (d.clone(), json!({"kind":"contention"})));
+                }
+            }
+        }
+        // deep typed traces at the same time (per-call bookkeeping kept in a static adds up across threads)
+        let mut deep = String::from("a: top\n    at a.m(F.java:2)\n");
+        for i in 0..600 {
+            deep.push_str(&format!("Caused by: b: level {}\n    at b.n(F.java:1)\n", i));
+        }
+        let sh2: &'static Shared = Box::leak(Box::new(build_shared()));
+        let solo_deep: Vec<String> = {
+            let tr = cur::StackTrace::try_parse(deep.as_bytes()).expect("deep trace parses");
+            vec![sh2.mapper.remap_stacktrace_typed(&tr).to_string(), sh2.cache.remap_stacktrace_typed(&tr).to_string(), format!("{:?}", sh2.mapper.remap_stacktrace(&deep)), format!("{:?}", sh2.cache.remap_stacktrace(&deep))]
+        };
+        let bad: Mutex<Option<String>> = Mutex::new(None);
+        std::thread::scope(|s| {
+            for ti in 0..8usize {
+                let (deep, solo_deep, bad) = (&deep, &solo_deep, &bad);
+                s.spawn(move || {
+                    for _ in 0..6 {
+                        let tr = cur::StackTrace::try_parse(deep.as_bytes()).expect("deep trace parses");
+                        let got = vec![sh2.mapper.remap_stacktrace_typed(&tr).to_string(), sh2.cache.remap_stacktrace_typed(&tr).to_string(), format!("{:?}", sh2.mapper.remap_stacktrace(deep)), format!("{:?}", sh2.cache.remap_stacktrace(deep))];
+                        for (k, g) in got.iter().enumerate() {
+                            if *g != solo_deep[k] {
+                                *bad.lock().unwrap() = Some(format!("8 threads remapping a 600-cause trace: thread {} result #{} ({} bytes) differs from the result alone ({} bytes)", ti, k, g.len(), solo_deep[k].len()));
+                            }
+                        }
+                    }
+                });
+            }
+        });
+        hammered += 8 * 6 * 4;
+        let found: Option<String> = bad.lock().unwrap().clone();
+        if let Some(d) = found {
+            acc.violation("free-running:contention:differs-from-solo", 3, || (d.clone(), json!({"kind":"contention"})));
+        }
+        acc.count("contention-pass queries on 4 / 8 OS threads (sampling, not part of the exhaustive claim)", hammered);
+    }
+
 pub fn run(tier: Tier) -> i32 {
     let t = tier.thorough();
     let budget = Budget::new(if t { 14 * 60 } else { 50 });
@@ -1130,6 +1201,9 @@ pub fn run(tier: Tier) -> i32 {
         }
     }
     acc.count("free-running script executions on 2/4/8/16 OS threads (sampling, not part of the exhaustive claim)", free_runs);
+    if !gate_failed {
+        contention_pass(&mut acc);
+    }
     acc.sample(3, || json!({"type_table": table.iter().map(|(n, s, y)| json!({"type": n, "Send": s, "Sync": y})).collect::<Vec<_>>()}));
     let mut assumptions = vec![
         "scheduling points: shuttle / baton place them between API steps (before every call and every iterator step); the wp scheduler adds every store the subject executes into the shared objects (their pages are write-protected; the fault is the scheduling point) and, once a store was seen, every load of a stored-to location. On this tree the wp counters report how many such stores happen (0 = the shared objects are never written during queries, so interleavings inside one call cannot be observed by another thread and the step-level schedules are complete)".into(),
@@ -1178,6 +1252,19 @@ pub fn recheck(case: &Value) -> Vec<String> {
             let mut a = Acc::new();
             history_pass(&mut a);
             a.violations.keys().cloned().collect()
+        }
+        "contention" => {
+            // sampling: try to reproduce a few times
+            let mut sigs = Vec::new();
+            for _ in 0..5 {
+                let mut a = Acc::new();
+                contention_pass(&mut a);
+                sigs = a.violations.keys().cloned().collect();
+                if !sigs.is_empty() {
+                    break;
+                }
+            }
+            sigs
         }
         "free-running" => {
             // sampling: try to reproduce a few times
